@@ -81,6 +81,32 @@ class Boom(Exception):
     """raised by wrapped bodies; must come out of the wrapper unchanged"""
 
 
+class BaseBoom(BaseException):
+    """a class derived directly from BaseException (like KeyboardInterrupt / SystemExit /
+    GeneratorExit it is not seen by `except Exception:`)"""
+
+
+# how a wrapped computation may end by raising: class name -> class.  The statement quantifies over
+# "all wrapped computations including those that raise": classes derived from Exception (Boom, and
+# ValueError = the class the setters themselves raise) and classes that are not (an interrupted
+# curve evaluation raises KeyboardInterrupt).
+RAISES = {"Boom": Boom, "ValueError": ValueError, "KeyboardInterrupt": KeyboardInterrupt,
+          "SystemExit": SystemExit, "GeneratorExit": GeneratorExit, "BaseBoom": BaseBoom}
+NON_EXCEPTION = [n for n, c in RAISES.items() if not issubclass(c, Exception)]
+
+
+def raise_name(s):
+    """the statement's "raise" key: absent / False = returns, True = Boom, or a name in RAISES"""
+    r = s.get("raise")
+    if not r:
+        return None
+    return "Boom" if r is True else str(r)
+
+
+def outcome_label(name):
+    return "raised:" + name if name else "ok"
+
+
 # ------------------------------------------------------------------ argument alphabet
 def A_enum(ty, m):
     return {"k": "enum", "ty": ty, "m": m}
@@ -194,7 +220,10 @@ def model_prog(prog):
     out = []
     for s in prog:
         if s["op"] == "temp":
-            out.append({"op": "temp", "size": model_arg(s["size"]), "raise": bool(s.get("raise")),
+            name = raise_name(s)
+            out.append({"op": "temp", "size": model_arg(s["size"]),
+                        "raise": {"cls": name, "exc": issubclass(RAISES[name], Exception)}
+                        if name else False,
                         "body": model_prog(s["body"])})
         elif "arg" in s:
             out.append({"op": s["op"], "arg": model_arg(s["arg"])})
@@ -279,21 +308,32 @@ def execute(q, prog, via_attr=False):
             if op == "temp":
                 token = object()
                 size = build(q, s["size"])
+                name = raise_name(s)
+                exc = RAISES[name](id(token)) if name else None
 
-                def body(s=s, token=token):
+                def body(s=s, token=token, exc=exc):
                     trace.append({"t": "enter", "cfg": state(q)})
                     run(s["body"])
-                    if s.get("raise"):
-                        raise Boom(id(token))
+                    if exc is not None:
+                        raise exc
                     return token
                 res = None
+                # BaseException: the body may end in KeyboardInterrupt / SystemExit / GeneratorExit,
+                # which must neither kill the check nor be mistaken for a refused size
                 try:
                     r = S.use_mc_sample_size(size)(body)()
                     res = "ok" if r is token else "ok-but-result-changed"
-                except Boom as e:
-                    res = "raised" if e.args == (id(token),) else "raised-other"
-                except Exception:  # noqa: BLE001
-                    res = "reject"
+                except BaseException as e:  # noqa: BLE001
+                    if exc is not None and e is exc:
+                        res = outcome_label(name)
+                    elif isinstance(e, Exception):
+                        # not the body's exception: the decorator's own request was refused (or the
+                        # body's exception was replaced by another one)
+                        res = "reject"
+                    elif isinstance(e, KeyboardInterrupt) and e.args != (id(token),):
+                        raise     # a real Ctrl-C, not one of ours
+                    else:
+                        res = "raised-other:" + type(e).__name__
                 trace.append({"t": "exit", "r": res, "cfg": state(q)})
                 continue
             try:
@@ -415,14 +455,17 @@ def direct_oracles(q, prog, trace, start, fresh):
                     after_body = walk(s["body"], inside)
                     ex = trace[pos[0]]
                     pos[0] += 1
-                    want = "raised" if s.get("raise") else "ok"
+                    want = outcome_label(raise_name(s))
                     if ex["r"] != want:
                         fail("c20:temp-outcome:" + str(ex["r"]), "outcome of the wrapped computation "
                              "is not propagated unchanged", "outcome propagated", impl=ex["r"],
                              expected=want)
                     if ex["cfg"]["mc"] != before["mc"]:
+                        # whatever the outcome: return, Exception, or a BaseException that is not an
+                        # Exception (KeyboardInterrupt, SystemExit, GeneratorExit, custom)
                         fail("c20:temp-restore:" + want, "sample size not restored after the wrapped "
-                             "computation " + ("raised" if s.get("raise") else "returned"),
+                             "computation " + ("raised " + raise_name(s) if raise_name(s)
+                                               else "returned"),
                              "temporary override restored", impl=ex["cfg"]["mc"], expected=before["mc"])
                     if any(ex["cfg"][f] != after_body[f] for f in after_body if f != "mc"):
                         fail("c20:temp-frame-exit", "leaving the override changed another option",
@@ -504,7 +547,9 @@ def gen_stmt(rng, alpha, depth):
                            A_float(10.0), A_NONE, A_bool(True), A_str("100")]
                           if rng.random() < 0.3 else [A_int(rng.randint(1, 10 ** 6))])
         body = [gen_stmt(rng, alpha, depth + 1) for _ in range(rng.randint(0, 4))]
-        return {"op": "temp", "size": size, "raise": rng.random() < 0.5, "body": body}
+        r = rng.random()
+        rz = False if r < 0.4 else True if r < 0.6 else rng.choice(sorted(RAISES))
+        return {"op": "temp", "size": size, "raise": rz, "body": body}
     op = rng.choice(SET_OPS)
     if rng.random() < 0.55:
         arg = valid_arg(rng, op, alpha)
@@ -557,10 +602,21 @@ def single_call_programs(q, alpha):
             if op in ATTR:
                 progs.append(pre[:3] + [{"op": op, "arg": a, "attr": True},
                                         {"op": "set_sig_figs_for_error", "arg": A_int(2)}])
-    for _, a in alpha:   # the override with every argument as its size, returning and raising
-        for rz in (False, True):
+    # the override with every argument as its size, with every way the body can end: returning,
+    # raising an Exception, raising a BaseException that is not an Exception
+    for _, a in alpha:
+        for rz in [False] + sorted(RAISES):
             progs.append(pre[2:3] + [{"op": "temp", "size": a, "raise": rz,
                                       "body": [{"op": "read"}]}, {"op": "read"}])
+    # ... and with a body that changes options (the size itself included) before it ends, nested
+    for rz in [False] + sorted(RAISES):
+        for rz2 in [False] + sorted(RAISES):
+            inner = {"op": "temp", "size": A_int(31), "raise": rz2,
+                     "body": [{"op": "set_monte_carlo_sample_size", "arg": A_int(9)},
+                              {"op": "set_print_style", "arg": A_str("scientific")}]}
+            progs.append(pre[2:3] + [{"op": "temp", "size": A_int(55), "raise": rz,
+                                      "body": [{"op": "set_unit_style", "arg": A_str("fraction")},
+                                               inner, {"op": "read"}]}, {"op": "read"}])
     return progs
 
 
@@ -597,8 +653,13 @@ def thorough_alphabet(q, alpha, level):
             inv = [s for s in mine if documented(q, op, s["arg"]) is False]
             keep += val[:2] + inv[:1]
         stmts = [{"op": "reset"}] + keep
-    stmts.append({"op": "temp", "size": A_int(55), "raise": True,
+    # length-4 sequences: the raising override ends in a KeyboardInterrupt (not an Exception); the
+    # longer alphabets carry both an Exception and a non-Exception ending
+    stmts.append({"op": "temp", "size": A_int(55), "raise": "KeyboardInterrupt" if level == "small" else True,
                   "body": [{"op": "set_monte_carlo_sample_size", "arg": A_int(9)}]})
+    if level != "small":
+        stmts.append({"op": "temp", "size": A_int(77), "raise": "SystemExit" if level == "full" else "BaseBoom",
+                      "body": [{"op": "set_monte_carlo_sample_size", "arg": A_int(8)}]})
     stmts.append({"op": "temp", "size": A_int(66), "raise": False,
                   "body": [{"op": "set_print_style", "arg": A_str("scientific")}]})
     if level != "small":
@@ -652,58 +713,76 @@ def compare(q, progs, ctx, ref=False, fresh=None, dist=None):
     return failures, traces
 
 
-def plotting_cases(q, fresh):
-    """the library's own use of the override: FunctionOnPlot.yvalues / yerr with a function that
-    returns and one that raises"""
+def plotting_cases(q, fresh, only=None):
+    """the library's own use of the override: FunctionOnPlot.yvalues / yerr with a curve function
+    that returns and one that raises — every class of RAISES, i.e. also KeyboardInterrupt (Ctrl-C
+    while an error band is computed), SystemExit, GeneratorExit and a direct BaseException subclass.
+    `only` = one stored input (replay)."""
     from qexpy.plotting.plotobjects import FunctionOnPlot
     fails, n = [], 0
-    for attr in ("yvalues", "yerr"):
-        for raises in (False, True):
-            for before in (777, 123456):
-                new_session(q)
-                q.set_monte_carlo_sample_size(before)
-                q.set_print_style("latex")
-                s0 = state(q)
-                seen = []
+    cases = [{"plot": attr, "raises": rz, "size_before": before}
+             for attr in ("yvalues", "yerr") for rz in [False] + sorted(RAISES)
+             for before in (777, 123456)]
+    if only is not None:
+        rz = only.get("raises")
+        cases = [{"plot": only.get("plot", "yvalues"), "raises": "Boom" if rz is True else rz,
+                  "size_before": only.get("size_before", 777)}]
+    try:
+        for inp in cases:
+            attr, name, before = inp["plot"], inp["raises"] or None, inp["size_before"]
+            new_session(q)
+            q.set_monte_carlo_sample_size(before)
+            q.set_print_style("latex")
+            s0 = state(q)
+            seen = []
+            exc = RAISES[name]("plot") if name else None
 
-                def make(raises, seen):
-                    def f(x):
-                        seen.append(state(q))
-                        if raises:
-                            raise Boom("plot")
-                        return x * 2
-                    return f
-                f = make(raises, seen)
-                out = None
-                try:
-                    fp = FunctionOnPlot(f, xrange=(0.0, 1.0))
-                    getattr(fp, attr)
-                    out = "ok"
-                except Boom:
-                    out = "raised"
-                except Exception as e:  # noqa: BLE001
+            def make(exc, seen):       # (one parameter only: FunctionOnPlot inspects the signature)
+                def f(x):
+                    seen.append(state(q))
+                    if exc is not None:
+                        raise exc
+                    return x * 2
+                return f
+            f = make(exc, seen)
+            out = None
+            try:
+                fp = FunctionOnPlot(f, xrange=(0.0, 1.0))
+                getattr(fp, attr)
+                out = "ok"
+            except BaseException as e:  # noqa: BLE001  (SystemExit etc. must not end the check)
+                if exc is not None and e is exc:
+                    out = outcome_label(name)
+                elif isinstance(e, KeyboardInterrupt):
+                    raise      # a real Ctrl-C
+                else:
                     out = "other:" + type(e).__name__
-                n += 1
-                s1 = state(q)
-                inp = {"plot": attr, "raises": raises, "size_before": before}
-                if out != ("raised" if raises else "ok"):
-                    fails.append({"signature": "c20:plot-outcome:" + out, "kind": "violation",
-                                  "oracle": "independent", "what": "outcome of the curve function "
-                                  "not propagated through FunctionOnPlot." + attr, "input": inp,
-                                  "impl": out, "clause": "outcome propagated"})
-                if s1 != s0:
-                    fails.append({"signature": "c20:temp-restore:plot:" + ("raised" if raises else "ok"),
-                                  "kind": "violation", "oracle": "independent",
-                                  "what": "options not restored after FunctionOnPlot.{} ({})".format(
-                                      attr, "function raised" if raises else "function returned"),
-                                  "input": inp, "impl": s1, "expected": s0,
-                                  "clause": "temporary override restored"})
-                if seen and any(seen[0][k] != s0[k] for k in s0 if k != "mc"):
-                    fails.append({"signature": "c20:temp-frame:plot", "kind": "violation",
-                                  "oracle": "independent", "what": "override changed another option",
-                                  "input": inp, "impl": seen[0], "expected": s0,
-                                  "clause": "override changes only the sample size"})
-    new_session(q)
+            n += 1
+            s1 = state(q)
+            want = outcome_label(name)
+            if out != want:
+                fails.append({"signature": "c20:plot-outcome:" + out, "kind": "violation",
+                              "oracle": "independent", "what": "outcome of the curve function "
+                              "not propagated through FunctionOnPlot." + attr, "input": inp,
+                              "impl": out, "expected": want, "clause": "outcome propagated"})
+            if s1 != s0:
+                fails.append({"signature": "c20:temp-restore:plot:" + want,
+                              "kind": "violation", "oracle": "independent",
+                              "what": "options not restored after FunctionOnPlot.{} ({})".format(
+                                  attr, "function raised " + name if name else "function returned"),
+                              "input": inp, "impl": s1, "expected": s0,
+                              "clause": "temporary override restored"})
+            if not seen:
+                fails.append({"signature": "c20:plot-not-run", "kind": "violation",
+                              "oracle": "independent", "what": "curve function was not called",
+                              "input": inp, "clause": "wrapped computation runs"})
+            if seen and any(seen[0][k] != s0[k] for k in s0 if k != "mc"):
+                fails.append({"signature": "c20:temp-frame:plot", "kind": "violation",
+                              "oracle": "independent", "what": "override changed another option",
+                              "input": inp, "impl": seen[0], "expected": s0,
+                              "clause": "override changes only the sample size"})
+    finally:
+        new_session(q)
     return fails, n
 
 
@@ -825,7 +904,7 @@ def replay(ctx, rp):
     f = rp.get("failure", {})
     p = f.get("input")
     if isinstance(p, dict) and "plot" in p:
-        fs, _ = plotting_cases(q, fresh_process_state())
+        fs, _ = plotting_cases(q, fresh_process_state(), only=p)
         return {"fails": bool(fs), "failures": fs}
     if not isinstance(p, list):
         return {"fails": False, "note": "replay file carries no concrete input", "payload": rp}
